@@ -368,8 +368,8 @@ theorem closure_exclKey (cfg : Cfg) (hcfg : cfg.svcMarksInput = false) (img : Im
   obtain ⟨n, hn, hkn⟩ := hk
   exact hg.2.excl (rk_excl.mpr (excludePhase_keys img _ _ _ _ h0 onlyExcl_empty n hn k hkn))
 
-theorem has_false_of_excl (st : St) (noInc mio : Bool) (k : Key) (h : rk st k = 4) :
-    RCtx.has ⟨st, noInc, mio⟩ k = false := by
+theorem has_false_of_excl (st : St) (noInc mio rn : Bool) (k : Key) (h : rk st k = 4) :
+    RCtx.has ⟨st, noInc, mio, rn⟩ k = false := by
   unfold RCtx.has hasType
   rw [rk_excl.mp h]
 
@@ -466,6 +466,27 @@ theorem remapMethod_some (c : RCtx) (p : List Nat) (x y : Method) (h : (remapMet
     · exact h'
   · cases h
 
+theorem renumberOneof_same (tbl : List Nat) (f : Field) :
+    (renumberOneof tbl f).id = f.id ∧ (renumberOneof tbl f).ty = f.ty ∧
+    (renumberOneof tbl f).extendee = f.extendee ∧ (renumberOneof tbl f).opts = f.opts := by
+  unfold renumberOneof
+  split
+  · exact ⟨rfl, rfl, rfl, rfl⟩
+  · split <;> exact ⟨rfl, rfl, rfl, rfl⟩
+
+/-- the fields of a kept, not enclosing-only message: the kept fields, their oneof indexes renumbered -/
+def fieldsOut (c : RCtx) (id : Id) (nOneofs : Nat) (kept : List Field) : List Field :=
+  if c.renumber then kept.map (renumberOneof (newOneofIndexes c.st id nOneofs 0 0)) else kept
+
+theorem mem_fieldsOut (c : RCtx) (id : Id) (n : Nat) (kept : List Field) (g : Field)
+    (h : g ∈ fieldsOut c id n kept) :
+    ∃ g0 ∈ kept, g.id = g0.id ∧ g.ty = g0.ty ∧ g.extendee = g0.extendee ∧ g.opts = g0.opts := by
+  unfold fieldsOut at h
+  split at h
+  · obtain ⟨g0, hg0, rfl⟩ := List.mem_map.mp h
+    exact ⟨g0, hg0, renumberOneof_same _ g0⟩
+  · exact ⟨g, h, rfl, rfl, rfl, rfl⟩
+
 /-- the exact shape of a kept message -/
 theorem remapMsg_shape (c : RCtx) (path : List Nat) (id : Id) (fields : List Field) (oneofs : List Oneof)
     (exts : List Field) (nested : List Msg) (enums : List Enum) (rangeOpts : List (List OptUse))
@@ -475,8 +496,9 @@ theorem remapMsg_shape (c : RCtx) (path : List Nat) (id : Id) (fields : List Fie
       y = .mk id fs os (remapSlice (path ++ [6]) (remapField c) exts 0 0).1
         (remapMsgs c (path ++ [3]) nested 0 0).1 (remapSlice (path ++ [4]) (remapEnum c) enums 0 0).1
         ro rs mapEntry opts ∧
-      (fs = [] ∨ (c.st.get (.el id) ≠ some .enclosing ∧
-        fs = (remapSlice (path ++ [2]) (remapField c) fields 0 0).1)) := by
+      ((fs = [] ∧ os = []) ∨ (c.st.get (.el id) ≠ some .enclosing ∧
+        fs = fieldsOut c id oneofs.length (remapSlice (path ++ [2]) (remapField c) fields 0 0).1 ∧
+        os = (remapSlice (path ++ [8]) (remapOneof c id) oneofs 0 0).1)) := by
   unfold remapMsg at h
   split at h
   · cases h
@@ -486,20 +508,21 @@ theorem remapMsg_shape (c : RCtx) (path : List Nat) (id : Id) (fields : List Fie
     split at h
     · split at h
       · simp only [Option.some.injEq] at h
-        exact ⟨_, _, _, _, h.symm, Or.inl rfl⟩
+        exact ⟨_, _, _, _, h.symm, Or.inl ⟨rfl, rfl⟩⟩
       · rename_i hne
         simp only [Bool.or_eq_true, Bool.not_eq_true', not_or, Bool.not_eq_true, Bool.not_eq_false] at hne
         simp only [Option.some.injEq] at h
-        refine ⟨_, _, _, _, h.symm, Or.inl ?_⟩
-        simpa using hne.1.1.1
+        refine ⟨_, _, _, _, h.symm, Or.inl ⟨?_, ?_⟩⟩
+        · simpa using hne.1.1.1
+        · simpa using hne.1.1.2
     · rename_i hne
       simp only [Option.some.injEq] at h
-      exact ⟨_, _, _, _, h.symm, Or.inr ⟨hne, rfl⟩⟩
+      exact ⟨_, _, _, _, h.symm, Or.inr ⟨hne, rfl, rfl⟩⟩
 
 /-- what a kept field / extension of the output is, in terms of the index block it came from -/
 def FieldOrigin (c : RCtx) (L : List Info) (g : Field) : Prop :=
-  ∃ j ∈ L, j.kind = .msg ∧ g ∈ j.fields ∧ c.has j.key = true ∧ c.st.get j.key ≠ some .enclosing ∧
-    ∀ t, g.ty = some t → c.has (.el t) = true
+  ∃ j ∈ L, ∃ g0 ∈ j.fields, j.kind = .msg ∧ g.id = g0.id ∧ g.ty = g0.ty ∧ g.extendee = g0.extendee ∧
+    c.has j.key = true ∧ c.st.get j.key ≠ some .enclosing ∧ ∀ t, g.ty = some t → c.has (.el t) = true
 
 def ExtOrigin (c : RCtx) (L : List Info) (g : Field) : Prop :=
   ∃ j ∈ L, j.kind = .ext ∧ j.fld = some g ∧ j.key = .el g.id ∧
@@ -562,12 +585,15 @@ theorem origin_msg (c : RCtx) (file : Id) (parent : Key) (path : List Nat) (m y 
     · intro g hg
       simp only [msgFieldsAll, List.mem_append] at hg
       rcases hg with hg | hg
-      · rcases hfs with rfl | ⟨hne, rfl⟩
+      · rcases hfs with ⟨rfl, _⟩ | ⟨hne, rfl, _⟩
         · cases hg
-        · rw [remapSlice_items] at hg
-          obtain ⟨x, hx, q, hq⟩ := mem_keptFrom _ _ _ _ _ hg
-          obtain ⟨rfl, _, h2⟩ := remapField_some c q x g hq
-          refine ⟨_, by simp only [msgInfos]; exact List.mem_cons_self, rfl, hx, hid, hne, h2⟩
+        · obtain ⟨g0, hg0, e1, e2, e3, _⟩ := mem_fieldsOut _ _ _ _ g hg
+          rw [remapSlice_items] at hg0
+          obtain ⟨x, hx, q, hq⟩ := mem_keptFrom _ _ _ _ _ hg0
+          obtain ⟨rfl, _, h2⟩ := remapField_some c q x g0 hq
+          refine ⟨_, by simp only [msgInfos]; exact List.mem_cons_self, g0, hx, rfl, e1, e2, e3, hid, hne, ?_⟩
+          intro t ht
+          exact h2 t (by rw [← e2]; exact ht)
       · exact (n2 g hg).mono hsubN
     · intro g hg
       simp only [msgExtsAll, List.mem_append] at hg
@@ -924,7 +950,7 @@ theorem kept_ext_visited (img : Image) (o : Opts) (fuel : Nat) (st : St)
     (hcl : closure cfgFixed img o fuel = .ok st) (hu : UniqIdx (buildIndex img)) (hr : WFRefs (buildIndex img))
     (hmode : o.includes ≠ [] ∨ NoImportCover img)
     (f : File) (hf : f ∈ img.files) (g : Field)
-    (ho : ExtOrigin ⟨st, o.includes.isEmpty, true⟩ (fileInfos f) g) :
+    (ho : ExtOrigin ⟨st, o.includes.isEmpty, true, true⟩ (fileInfos f) g) :
     ∃ j, (buildIndex img).find (.el g.id) = some j ∧ j.kind = .ext ∧ j.fld = some g ∧ j.file = f.id ∧
       2 ≤ rk st (.el g.id) ∧ rk st (.el g.id) ≤ 3 := by
   obtain ⟨j, hj, hk, hfld, hkey, hhas, _⟩ := ho
@@ -938,7 +964,7 @@ theorem kept_ext_visited (img : Image) (o : Opts) (fuel : Nat) (st : St)
     rw [hfld] at this; cases this
   have hne4 : rk st (.el g.id) ≠ 4 := by
     intro h4
-    rw [has_false_of_excl st _ _ _ h4] at hh; cases hh
+    rw [has_false_of_excl st _ _ _ _ h4] at hh; cases hh
   have hle := rk_le_four st (.el g.id)
   refine ⟨j, hfind, hk, hfld, file_fileInfos f j hj, ?_, by omega⟩
   cases hinc : o.includes with
@@ -949,7 +975,7 @@ theorem kept_ext_visited (img : Image) (o : Opts) (fuel : Nat) (st : St)
       rw [hkey] at this; exact this
   | cons a as =>
     rw [hinc] at hh
-    have := (has_iff_rk st true (.el g.id)).mp hh
+    have := (has_iff_rk st true true (.el g.id)).mp hh
     omega
 
 /-- **filter_drops_excludes** (output of `filterWith cfgFixed`). -/
@@ -959,17 +985,17 @@ theorem filterWith_drops_excludes (img : Image) (o : Opts) (fuel : Nat) (out : L
     x ∉ outIds of ∧ x ∉ typeRefs of ∧ ((o.includes ≠ [] ∨ NoImportCover img) → x ∉ extendeeRefs of) := by
   obtain ⟨st, hcl, hrw⟩ := filterWith_parts _ _ _ _ _ h
   obtain ⟨f, hf, hrf⟩ := rewrite_origin cfgFixed rfl st _ img out hrw of hof
-  have hrf' : remapFile ⟨st, o.includes.isEmpty, true⟩ f = some of := hrf
+  have hrf' : remapFile ⟨st, o.includes.isEmpty, true, true⟩ f = some of := hrf
   obtain ⟨o1, o2, o3, o4⟩ := origin_file _ f of (extsOK_file img hr f hf) hrf'
   have h4 : rk st (.el x) = 4 := closure_exclKey cfgFixed rfl img o fuel st hcl _ hx
-  have hno : RCtx.has ⟨st, o.includes.isEmpty, true⟩ (.el x) = false := has_false_of_excl st _ _ _ h4
+  have hno : RCtx.has ⟨st, o.includes.isEmpty, true, true⟩ (.el x) = false := has_false_of_excl st _ _ _ _ h4
   refine ⟨?_, ?_, ?_⟩
   · intro hm
     rw [o1 x hm] at hno; cases hno
   · intro hm
     simp only [typeRefs, List.mem_append, List.mem_filterMap, List.mem_flatten, List.mem_map] at hm
     rcases hm with ⟨g, hg | hg, hty⟩ | ⟨l, ⟨m, hm, rfl⟩, hxl⟩
-    · obtain ⟨_, _, _, _, _, _, ht⟩ := o2 g hg
+    · obtain ⟨_, _, _, _, _, _, _, _, _, _, ht⟩ := o2 g hg
       rw [ht x hty] at hno; cases hno
     · obtain ⟨_, _, _, _, _, _, ht⟩ := o3 g hg
       rw [ht x hty] at hno; cases hno
@@ -981,9 +1007,9 @@ theorem filterWith_drops_excludes (img : Image) (o : Opts) (fuel : Nat) (out : L
   · intro hmode hm
     simp only [extendeeRefs, List.mem_filterMap, List.mem_append] at hm
     obtain ⟨g, hg | hg, hext⟩ := hm
-    · obtain ⟨j, hj, _, hgj, _⟩ := o2 g hg
-      have := hr.fieldsPlain j (mem_buildIndex_of img f hf j hj) g hgj
-      rw [this] at hext; cases hext
+    · obtain ⟨j, hj, g0, hgj, _, _, _, hge, _⟩ := o2 g hg
+      have := hr.fieldsPlain j (mem_buildIndex_of img f hf j hj) g0 hgj
+      rw [hge, this] at hext; cases hext
     · obtain ⟨j, hfind, hk, hfld, _, h2, h3⟩ := kept_ext_visited img o fuel st hcl hu hr hmode f hf g (o3 g hg)
       have hs := closure_sinv cfgFixed rfl img o fuel st hu hcl
       have hne : NonExt ⟨cfgFixed, buildIndex img, o.customOpts⟩ (.el x) :=
@@ -1046,18 +1072,18 @@ theorem refsResolve_of_B (idx : Index) (h : refsResolveB idx = true) : RefsResol
     simp only [hk, bne_self_eq_false, Bool.false_or, Bool.and_eq_true] at this
     exact ⟨target_of_B idx _ this.1, target_of_B idx _ this.2⟩
 
-theorem has_true_noInc (st : St) (mio : Bool) (k : Key) :
-    (RCtx.has ⟨st, true, mio⟩ k = true) ↔ rk st k ≠ 4 := by
+theorem has_true_noInc (st : St) (mio rn : Bool) (k : Key) :
+    (RCtx.has ⟨st, true, mio, rn⟩ k = true) ↔ rk st k ≠ 4 := by
   unfold RCtx.has hasType rk
   cases h : st.get k with
   | none => simp [rank]
   | some m => cases m <;> simp [rank]
 
 /-- a kept element's parent is kept — in both modes of `hasType` -/
-theorem up_all (c : Ctx) (hwf : WFIdx c.idx) (st : St) (hc : Closed c st) (hd : DC c.idx st) (noInc mio : Bool) :
-    ∀ j ∈ c.idx, Up ⟨st, noInc, mio⟩ j := by
+theorem up_all (c : Ctx) (hwf : WFIdx c.idx) (st : St) (hc : Closed c st) (hd : DC c.idx st) (noInc mio rn : Bool) :
+    ∀ j ∈ c.idx, Up ⟨st, noInc, mio, rn⟩ j := by
   cases noInc with
-  | false => exact up_of_closed c hwf st hc hd mio
+  | false => exact up_of_closed c hwf st hc hd mio rn
   | true =>
     intro j hj hh p hp
     rw [has_true_noInc] at hh ⊢
@@ -1069,12 +1095,12 @@ theorem visited_of_has (img : Image) (o : Opts) (fuel : Nat) (st : St)
     (hcl : closure cfgFixed img o fuel = .ok st) (hu : UniqIdx (buildIndex img))
     (hmode : o.includes ≠ [] ∨ NoImportCover img) (f : File) (hf : f ∈ img.files) (j : Info) (hj : j ∈ fileInfos f)
     (hk1 : j.kind ≠ .file) (hk2 : j.kind ≠ .method)
-    (hh : RCtx.has ⟨st, o.includes.isEmpty, true⟩ j.key = true) (h1 : rk st j.key ≠ 1) :
+    (hh : RCtx.has ⟨st, o.includes.isEmpty, true, true⟩ j.key = true) (h1 : rk st j.key ≠ 1) :
     2 ≤ rk st j.key ∧ rk st j.key ≤ 3 := by
   have hle := rk_le_four st j.key
   have hne4 : rk st j.key ≠ 4 := by
     intro h4
-    rw [has_false_of_excl st _ _ _ h4] at hh; cases hh
+    rw [has_false_of_excl st _ _ _ _ h4] at hh; cases hh
   refine ⟨?_, by omega⟩
   cases hinc : o.includes with
   | nil =>
@@ -1083,7 +1109,7 @@ theorem visited_of_has (img : Image) (o : Opts) (fuel : Nat) (st : St)
     · exact excludeOnly_visited cfgFixed rfl img o fuel st hcl hu hinc hm f hf j hj hk1 hk2
   | cons a as =>
     rw [hinc] at hh
-    have := (has_iff_rk st true j.key).mp hh
+    have := (has_iff_rk st true true j.key).mp hh
     omega
 
 /-- a visited message / enum / service is declared in the output, in the output file of its own file -/
@@ -1098,15 +1124,15 @@ theorem present_of_visited (img : Image) (o : Opts) (fuel : Nat) (st : St) (out 
   obtain ⟨st0, h0, ho, hg⟩ := closure_good cfgFixed rfl img o fuel st hcl
   have hd0 := (dc_excludePhase img (buildIndex img) hwf st0 o.excludes h0).2
   have hd : DC c.idx st := dc_of_le c hwf st0 st hd0 hg.2
-  have hup := up_all c hwf st hg.1 hd o.includes.isEmpty true
+  have hup := up_all c hwf st hg.1 hd o.includes.isEmpty true true
   obtain ⟨f, hf, hif⟩ := mem_buildIndex img it (find_mem hfind)
   have hkey := find_key _ _ _ hfind
-  have hhas : RCtx.has ⟨st, o.includes.isEmpty, true⟩ it.key = true := by
+  have hhas : RCtx.has ⟨st, o.includes.isEmpty, true, true⟩ it.key = true := by
     rw [hkey]
     cases o.includes.isEmpty with
     | true => rw [has_true_noInc]; omega
     | false => rw [has_iff_rk]; exact ⟨by omega, h3⟩
-  obtain ⟨of, hof, hid, hpres⟩ := pres_file ⟨st, o.includes.isEmpty, true⟩ f
+  obtain ⟨of, hof, hid, hpres⟩ := pres_file ⟨st, o.includes.isEmpty, true, true⟩ f
     (fun j hj => hup j (mem_buildIndex_of img f hf j hj)) it hif hfld hkm hkf hhas
   have hfile := file_fileInfos f it hif
   have hseen : f.id ∈ st.seen := by
@@ -1126,7 +1152,7 @@ theorem filterWith_refs_resolve (img : Image) (o : Opts) (fuel : Nat) (out : Lis
     ∃ of' ∈ out, t ∈ outIds of' ∧ (of'.id = of.id ∨ of'.id ∈ of.deps) := by
   obtain ⟨st, hcl, hrw⟩ := filterWith_parts _ _ _ _ _ h
   obtain ⟨f, hf, hrf⟩ := rewrite_origin cfgFixed rfl st _ img out hrw of hof
-  have hrf' : remapFile ⟨st, o.includes.isEmpty, true⟩ f = some of := hrf
+  have hrf' : remapFile ⟨st, o.includes.isEmpty, true, true⟩ f = some of := hrf
   obtain ⟨_, o2, o3, o4⟩ := origin_file _ f of (extsOK_file img hr f hf) hrf'
   obtain ⟨hid, hdeps⟩ := remapFile_deps _ f of hrf'
   let c : Ctx := ⟨cfgFixed, buildIndex img, o.customOpts⟩
@@ -1145,14 +1171,15 @@ theorem filterWith_refs_resolve (img : Image) (o : Opts) (fuel : Nat) (out : Lis
     · rcases he.2 f.id rfl with e | e
       · left; rw [hid', hid, e]
       · right; rw [hid', hdeps]; exact remapDeps_lists st f it.file e
-  have hne_of_has : ∀ x, RCtx.has ⟨st, o.includes.isEmpty, true⟩ (.el x) = true → rk st (.el x) ≠ 4 := by
+  have hne_of_has : ∀ x, RCtx.has ⟨st, o.includes.isEmpty, true, true⟩ (.el x) = true → rk st (.el x) ≠ 4 := by
     intro x hx h4
-    rw [has_false_of_excl st _ _ _ h4] at hx; cases hx
+    rw [has_false_of_excl st _ _ _ _ h4] at hx; cases hx
   -- a kept ordinary field
   have fieldCase : ∀ g ∈ allFields of, ∀ x, g.ty = some x →
       ∃ of' ∈ out, x ∈ outIds of' ∧ (of'.id = of.id ∨ of'.id ∈ of.deps) := by
     intro g hg x hx
-    obtain ⟨j, hj, hk, hgj, hhas, hne, hty⟩ := o2 g hg
+    obtain ⟨j, hj, g0, hgj, hk, _, hgt, _, hhas, hne, hty⟩ := o2 g hg
+    have hx0 : g0.ty = some x := by rw [← hgt]; exact hx
     have hjidx := mem_buildIndex_of img f hf j hj
     have hjfind : c.idx.find j.key = some j := hu j hjidx
     have h1 : rk st j.key ≠ 1 := by
@@ -1164,16 +1191,16 @@ theorem filterWith_refs_resolve (img : Image) (o : Opts) (fuel : Nat) (out : Lis
       | some m => rw [hm] at h1; cases m <;> simp [rank] at h1 ⊢
     obtain ⟨h2, h3⟩ := visited_of_has img o fuel st hcl hu hmode f hf j hj (by rw [hk]; simp) (by rw [hk]; simp) hhas h1
     have hreq := (hgood.1 j.key j hjfind).2 h2 h3
-    have hp := hreq (.field g j.file) (by
+    have hp := hreq (.field g0 j.file) (by
       unfold reqTasks; rw [hk]
       simp only [List.mem_append, List.mem_map]
-      exact Or.inl (Or.inl (Or.inl ⟨g, hgj, rfl⟩)))
+      exact Or.inl (Or.inl (Or.inl ⟨g0, hgj, rfl⟩)))
     have hne4 := hne_of_has x (hty x hx)
     rcases hp with ⟨t', ht', h4⟩ | ⟨h1', _⟩
-    · rw [hx] at ht'; cases ht'; exact absurd h4 hne4
-    · have := h1' x hx
+    · rw [hx0] at ht'; cases ht'; exact absurd h4 hne4
+    · have := h1' x hx0
       rw [file_fileInfos f j hj] at this
-      exact fin x (hres.fieldTy j hjidx g hgj x hx) this hne4
+      exact fin x (hres.fieldTy j hjidx g0 hgj x hx0) this hne4
   -- a kept extension
   have extCase : ∀ g ∈ allExts of, (∀ x, g.ty = some x →
       ∃ of' ∈ out, x ∈ outIds of' ∧ (of'.id = of.id ∨ of'.id ∈ of.deps)) ∧
@@ -1215,7 +1242,7 @@ theorem filterWith_refs_resolve (img : Image) (o : Opts) (fuel : Nat) (out : Lis
       cases hinc : o.includes with
       | cons a as =>
         rw [hinc] at hhas
-        have := (has_iff_rk st true (.el m.id)).mp hhas
+        have := (has_iff_rk st true true (.el m.id)).mp hhas
         omega
       | nil =>
         rcases hmode with hmd | hmd
@@ -1259,9 +1286,9 @@ theorem filterWith_refs_resolve (img : Image) (o : Opts) (fuel : Nat) (out : Lis
       exact methodCase m hm t hxl
   · simp only [extendeeRefs, List.mem_filterMap, List.mem_append] at ht
     obtain ⟨g, hg | hg, hext⟩ := ht
-    · obtain ⟨j, hj, _, hgj, _⟩ := o2 g hg
-      have := hr.fieldsPlain j (mem_buildIndex_of img f hf j hj) g hgj
-      rw [this] at hext; cases hext
+    · obtain ⟨j, hj, g0, hgj, _, _, _, hge, _⟩ := o2 g hg
+      have := hr.fieldsPlain j (mem_buildIndex_of img f hf j hj) g0 hgj
+      rw [hge, this] at hext; cases hext
     · exact (extCase g hg).2 t hext
 
 /-- executable form of `ExclKey` (for concrete witnesses) -/
